@@ -428,6 +428,15 @@ func (v *Verifier) setupEntry(r *Root, e *Enc) {
 
 func (v *Verifier) finish(r *Root, e *Enc) {
 	r.curBlock = -1
+	// a call-site assertion that matched no call of the function itself generates no obligation: that is a hole, not a pass
+	// (calls made inside inlined callees do not count; a deleted call ends up here too)
+	if r.ct != nil && !r.discover {
+		for _, ca := range r.ct.CallAsserts {
+			if r.siteCnt["matched:"+ca.C.Src] == 0 {
+				r.errorf("call-site assertion [%s] at %s matches no call in %s", ca.C.Name(), ca.Callee, r.fn.Name())
+			}
+		}
+	}
 	ct := e.ct
 	fn := e.fn
 	g := v.g
